@@ -15,6 +15,13 @@ use crate::{
 pub use id::ContextID;
 
 pub type RunningFuture = futures::future::Shared<oneshot::Receiver<()>>;
+/// Whether the actor behind this running-future has terminated,
+/// regardless of whether anybody has awaited it yet.
+pub(crate) fn has_terminated(running: &RunningFuture) -> bool {
+    use futures::FutureExt as _;
+    // a clone that was itself awaited to completion has given up its inner future
+    running.strong_count().is_none() || running.clone().now_or_never().is_some()
+}
 pub struct StopNotifier(pub(crate) oneshot::Sender<()>);
 impl StopNotifier {
     pub fn notify(self) {
